@@ -1,50 +1,57 @@
-(* Canonical form of a sparse matrix given as (row, col, value) triples over Q: keys row*n+col sorted,
+(* Canonical form of a sparse matrix given as (row, col, value) triples over bigQ: keys row*n+col sorted,
    duplicates summed.  Used only by the correspondence checks (evaluation inside Coq) to compare the model's
    triples with scipy's canonical (sum_duplicates) form of the implementation's matrix. *)
 From Coq Require Import ZArith QArith List Bool Lia Sorting.Mergesort Orders.
-From Pymoto Require Import Base.Num Base.Cmp.
+From Bignums Require Import BigQ.
+From Pymoto Require Import Base.Num Base.Cmp Base.Qsqrt3.
 Import ListNotations.
 
-Module ZQOrder <: TotalLeBool.
-  Definition t : Type := (Z * Q)%type.
+Module ZBOrder <: TotalLeBool.
+  Definition t : Type := (Z * bigQ)%type.
   Definition leb (a b : t) : bool := Z.leb (fst a) (fst b).
   Theorem leb_total : forall a b, leb a b = true \/ leb b a = true.
   Proof.
     intros [a qa] [b qb]; unfold leb; cbn [fst].
     destruct (Z.leb_spec a b) as [L|L]; [left; reflexivity | right; apply Z.leb_le; lia].
   Qed.
-End ZQOrder.
-Module ZQSort := Sort ZQOrder.
+End ZBOrder.
+Module ZBSort := Sort ZBOrder.
 
 (* l sorted by key: add up runs of equal keys *)
-Fixpoint sumdup (l : list (Z * Q)) : list (Z * Q) :=
+Fixpoint sumdup (l : list (Z * bigQ)) : list (Z * bigQ) :=
   match l with
   | [] => []
   | (k, v) :: t =>
       match sumdup t with
-      | (k', v') :: r => if Z.eqb k k' then (k, Qradd v v') :: r else (k, v) :: (k', v') :: r
+      | (k', v') :: r => if Z.eqb k k' then (k, BigQ.add_norm v v') :: r else (k, v) :: (k', v') :: r
       | [] => [(k, v)]
       end
   end.
 
-Definition sp_canon (n : Z) (T : list (Z * Z * Q)) : list (Z * Q) :=
-  sumdup (ZQSort.sort (map (fun t : Z * Z * Q => match t with (r, c, v) => ((r * n + c)%Z, v) end) T)).
+Definition sp_canon (n : Z) (T : list (Z * Z * bigQ)) : list (Z * bigQ) :=
+  sumdup (ZBSort.sort (map (fun t : Z * Z * bigQ => match t with (r, c, v) => ((r * n + c)%Z, v) end) T)).
 
 (* model (canonical) against observation (canonical, keys strictly increasing).
    strict: identical index structure.  not strict: the model may hold extra entries whose value is ~0
    (scipy's sparse + sparse drops entries that are exactly zero after the addition). *)
-Fixpoint sp_cmp (tol : Q) (strict : bool) (model obs : list (Z * Q)) {struct model} : bool :=
+Fixpoint sp_cmp (tol : bigQ) (strict : bool) (model : list (Z * bigQ)) (obs : list (Z * Q)) {struct model} : bool :=
   match model with
   | [] => match obs with [] => true | _ => false end
   | (k, v) :: m' =>
       match obs with
-      | [] => negb strict && Qclose tol v 0 && sp_cmp tol strict m' []
+      | [] => negb strict && bq_close tol v 0%bigQ && sp_cmp tol strict m' []
       | (k', v') :: o' =>
-          if Z.eqb k k' then Qclose tol v v' && sp_cmp tol strict m' o'
-          else if Z.ltb k k' then negb strict && Qclose tol v 0 && sp_cmp tol strict m' obs
+          if Z.eqb k k' then bq_close tol v (bq v') && sp_cmp tol strict m' o'
+          else if Z.ltb k k' then negb strict && bq_close tol v 0%bigQ && sp_cmp tol strict m' obs
           else false
       end
   end.
 
-Definition sp_check (tol : Q) (strict : bool) (n : Z) (T : list (Z * Z * Q)) (obs : list (Z * Q)) : bool :=
-  sp_cmp tol strict (sp_canon n T) obs.
+Definition sp_check (tol : Q) (strict : bool) (n : Z) (T : list (Z * Z * bigQ)) (obs : list (Z * Q)) : bool :=
+  sp_cmp (bq tol) strict (sp_canon n T) obs.
+
+(* comparisons of bigQ vectors / matrices with rational observations *)
+Definition bql_close (tol : Q) (a : list bigQ) (b : list Q) : bool :=
+  list_eqb (fun x y => bq_close (bq tol) x y) a (bql b).
+Definition bqm_close (tol : Q) (a : list (list bigQ)) (b : list (list Q)) : bool :=
+  list_eqb (list_eqb (fun x y => bq_close (bq tol) x y)) a (bqm b).
